@@ -28,6 +28,8 @@ def _run_case(kind, d):
         return ec.run_unpack_pack(None, d['dtype'], d['rows'])
     if kind == 'popcount':
         return ec.run_popcount(tuple(d['shape']), d['bits'], d.get('signed', False))
+    if kind == 'mv_bp_big':
+        return ec.run_mv_bp_big(tuple(d['shape']), d['seed'])
     if kind == 'popcount_big':
         return ec.run_popcount_big(tuple(d['shape']), d['seed'], d.get('signed', False))
     if kind == 'tables':
@@ -37,7 +39,7 @@ def _run_case(kind, d):
 
 
 COMPONENT = {'strings': 'logic.interpret/mvarray/mv_str/bparray', 'mv_bp': 'logic.mv_to_bp/bp_to_mv', 'bp_mv': 'logic.bp_to_mv/mv_to_bp',
-             'pack': 'logic.unpackbits/packbits', 'unpack_pack': 'logic.packbits/unpackbits', 'popcount': 'kyupy.popcount', 'popcount_big': 'kyupy.popcount',
+             'pack': 'logic.unpackbits/packbits', 'unpack_pack': 'logic.packbits/unpackbits', 'popcount': 'kyupy.popcount', 'popcount_big': 'kyupy.popcount', 'mv_bp_big': 'logic.mv_to_bp/bp_to_mv',
              'tables': 'logic constants / interpret / mv_str'}
 
 
@@ -87,6 +89,8 @@ def gen_inputs(ck, rng):
         out.append(('popcount', {'shape': list(shape), 'bits': bits, 'signed': rng.random() < 0.4}))
     for shape in [(65536,), (65537,), (100000,), (400, 250), (3, 70000), (1 << 17,), ((1 << 17) + 1,), (2, 3, 40000)][:4 + 4 * min(n, 1)]:
         out.append(('popcount_big', {'shape': list(shape), 'seed': rng.randrange(1 << 30), 'signed': rng.random() < 0.3}))
+    for shape in [(4200, 300), ((1 << 20) + 5,), (70001,), (3, 70001), (2, 5, 110000)][:3 + 2 * min(n, 1)]:
+        out.append(('mv_bp_big', {'shape': list(shape), 'seed': rng.randrange(1 << 30)}))
     return out
 
 
